@@ -162,7 +162,7 @@ def h_crosstalk(P, method, box):
 
 
 BOUNDS = {
-    "quick": {"boxes": "catalogue of 7 concrete float64 boxes, g fully symbolic float64", "K_inbox_fixpoint": 3, "K_congruent": 1,
+    "quick": {"boxes": "catalogue of 7 concrete float64 boxes, g fully symbolic float64", "K_inbox_fixpoint": 3, "K_congruent": "boundary inputs only: within 4 ulps of every multiple of the range, |m| < 8, three boxes",
               "array_shapes": "1x1 (+2x2 cross-talk check)"},
     "thorough": {"boxes": "catalogue of 11 boxes + fully symbolic (lo,hi) for in-box/fix-point", "K_inbox_fixpoint": "3 (6 on three boxes)",
                  "K_congruent": 2},
@@ -177,7 +177,8 @@ def cases(tier):
     cs = []
     boxes = CATALOGUE[:7] if tier == "quick" else CATALOGUE
     K = 3
-    T = 150 if tier == "quick" else 900
+    T = 300 if tier == "quick" else 900
+    Tc = 60 if tier == "quick" else 900
     for method in ("clip", "toroidal", "reflect"):
         for box in boxes:
             cs.append(dict(name=f"repair.{method}.box{tuple(box)}", fn=h_repair, params=dict(method=method, box=list(box), K=K),
@@ -188,13 +189,15 @@ def cases(tier):
     cs.append(dict(name="repair.clip.symbolic-box", fn=h_repair, params=dict(method="clip", box=None, K=K), profile="fp"))
     # prescribed movement: one case per translate of the box
     Kc = 1 if tier == "quick" else 2
-    cboxes = [(-20.0, 20.0), (0.0, 1.0)] if tier == "quick" else CATALOGUE[:5] + CATALOGUE[7:]
+    # (quick: prescribed movement is decided on the boundary-input cases below; the per-translate queries over *all* inputs of
+    #  a translate need minutes each and run in the thorough tier only)
+    cboxes = [] if tier == "quick" else CATALOGUE[:5] + CATALOGUE[7:]
     for method in ("toroidal", "reflect"):
         for box in cboxes:
             for region in range(-(2**Kc), 2**Kc):
                 cs.append(dict(name=f"congruent.{method}.box{tuple(box)}.k{region}", fn=h_repair,
                                params=dict(method=method, box=list(box), K=Kc, region=region), profile="fp", portfolio=True, fmod_K=Kc,
-                               oblig_timeout_s=T, cores=3, weight=3, soft=["*.congruent"]))
+                               oblig_timeout_s=Tc, cores=3, weight=3, soft=["*.congruent"]))
     # boundary inputs: within J ulps of every multiple of the range up to 2^K ranges away (faces, exact multiples)
     nboxes = [(0.1, 0.7), (-0.1, 0.2), (-5.12, 5.12)] if tier == "quick" else CATALOGUE + [(-5.12, 5.12)]
     J = 4 if tier == "quick" else 16
